@@ -229,7 +229,7 @@ theorem other_columns_do_not_matter (cx : EvalCtx) (e? : Option Entry) (x y : Ex
 /-- a WHERE comparison evaluates both operands (fresh memo each) and compares the values -/
 theorem where_on_expression (cx : EvalCtx) (e : Entry) (cache : RxCache) (l r : Expr) (op : Op) (lv rv : Variant) (m1 m2 : Memo)
     (hl : columnValue cx (some e) [] l = .ok (lv, m1)) (hr : columnValue cx (some e) [] r = .ok (rv, m2)) :
-    conforms cx e cache (.cmp l op r) = compareValues cx.cfg.today cache lv op rv := by
+    conforms cx e cache (.cmp l op r) = compareAtom cx.cfg.today cache lv op rv := by
   simp only [conforms, hl, hr]
 
 /-- D62 (known finding): two different calls with the same display text, hence one cache key -/
